@@ -56,6 +56,19 @@ def budget_for(P):
     return 20000 + BUDGET_PER_NODE * (size + nsub * len(P.nodes)) * depth
 
 
+_SHARED_BACKEND = [None]
+
+
+def shared_backend():
+    """One backend object reused for many circuits of a process (state kept on a backend between
+    circuits must not leak from one circuit into the next)."""
+    if _SHARED_BACKEND[0] is None:
+        from jaqalpaq.emulator.unitary import UnitarySerializedEmulator
+
+        _SHARED_BACKEND[0] = UnitarySerializedEmulator()
+    return _SHARED_BACKEND[0]
+
+
 def run(s, ov=None, seed=1, budget=None):
     c = s.c
     if ov:
@@ -65,7 +78,8 @@ def run(s, ov=None, seed=1, budget=None):
         c = o[1]
     np.random.seed(seed)
     del gateset.EVENT_LOG[:]
-    return lib.budgeted(lib.run, budget or budget_for(s.P), c)
+    kw = {"backend": shared_backend()} if seed % 2 else {}
+    return lib.budgeted(lib.run, budget or budget_for(s.P), c, **kw)
 
 
 def result_view(res):
